@@ -69,19 +69,19 @@ package boltz
 //@   nosafety
 //@   modifies *
 //@   callpre[looks-up-by-the-store's-load-rule] getEntityBucketForLoad@1: recv == store && arg0 == tx && arg1 == id
-//@   ensures[found-iff-the-load-rule-finds-it] called(getEntityBucketForLoad, 1) && (result1 == nil ==> result0 == (ret(getEntityBucketForLoad, 1) != nil))
+//@   lensures[found-iff-the-load-rule-finds-it] called(getEntityBucketForLoad, 1) && (result1 == nil ==> result0 == (ret(getEntityBucketForLoad, 1) != nil))
 //@ func (*BaseStore).FindById
 //@   props C15
 //@   nosafety
 //@   modifies *
 //@   callpre[looks-up-by-the-store's-load-rule] getEntityBucketForLoad@1: recv == store && arg0 == tx && arg1 == id
-//@   ensures[found-iff-the-load-rule-finds-it] called(getEntityBucketForLoad, 1) && (result2 == nil ==> result1 == (ret(getEntityBucketForLoad, 1) != nil))
+//@   lensures[found-iff-the-load-rule-finds-it] called(getEntityBucketForLoad, 1) && (result2 == nil ==> result1 == (ret(getEntityBucketForLoad, 1) != nil))
 //@ func (*BaseStore).LoadById
 //@   props C15
 //@   nosafety
 //@   modifies *
 //@   callpre[looks-up-by-the-store's-load-rule] getEntityBucketForLoad@1: recv == store && arg0 == tx && arg1 == id
-//@   ensures[not-found-iff-the-load-rule-finds-nothing] called(getEntityBucketForLoad, 1) && (ret(getEntityBucketForLoad, 1) == nil ==> result1 != nil)
+//@   lensures[not-found-iff-the-load-rule-finds-nothing] called(getEntityBucketForLoad, 1) && (ret(getEntityBucketForLoad, 1) == nil ==> result1 != nil)
 
 // ---- a query-driven delete runs the query on the store it was asked of (a child store selects only entities with child
 // data) and deletes each selected id through the store's own delete, in the caller's context ----
@@ -95,6 +95,6 @@ package boltz
 //@   nosafety
 //@   modifies *, ocCnt, ocFn, ocRecv, cxN, cxWho, cxPhase, cxCtx, cxPersist, edDone, pdN, pdWho, pdId
 //@   callpre[the-query-runs-on-this-store] QueryIds@1: recv == store && arg0 == ctxTx[ctx] && arg1 == query
-//@   ensures[always-selects-through-this-store's-query] called(QueryIds, 1)
+//@   lensures[always-selects-through-this-store's-query] called(QueryIds, 1)
 //@   callpre[each-selected-id-goes-through-the-store's-own-delete-in-the-caller's-context] DeleteById@1: recv == store.impl && arg0 == ctx
 //@   invariant 1: true
